@@ -11,6 +11,8 @@ ENGINES = {
     "node": {"cwd": "$REPO", "pkg": ["-p", "radicle-node"]},
 }
 SETUP_ENGINES = ["node"]
+# replay include files that exist in harness sources of an engine but belong to no registered harness (yet)
+EXTRA_REPLAY_FILES = {"node": ["wire_c13", "wire_c14", "service_c29"]}
 
 Q = ["quick", "thorough"]
 T = ["thorough"]
@@ -114,4 +116,26 @@ PROPERTIES["C14"] = {
         "Kani/CBMC model of the Rust allocator and of std",
         "chunking independence is concluded by induction from steps A and B over the deserializer state (the unparsed byte buffer); the induction itself is a paper argument (DESIGN.md, C14)",
     ],
+}
+
+# ---------------------------------------------------------------------------------------------
+# C29
+
+_M29 = "service::verif_kani::c29"
+_SVC = "Service<Database, Storage, MemorySigner> is a partially initialised MaybeUninit: only `clock` and `last_timestamp` are written (the only fields Service::timestamp touches)"
+PROPERTIES["C29"] = {
+    "harnesses": [
+        H("c29_timestamp_step_strictly_increases", "node", _M29, "service_c29", tiers=Q, covers=3,
+          functions=["service::Service::timestamp", "Timestamp::from(LocalTime)", "Timestamp + u64", "LocalTime::{from_millis,as_millis}"],
+          bounds="one inductive step: clock any u64 milliseconds, last signed timestamp any u64 < u64::MAX", stubs=[_SVC]),
+        H("c29_timestamp_three_steps_any_clock", "node", _M29, "service_c29", tiers=Q, covers=2,
+          functions=["service::Service::timestamp"],
+          bounds="three consecutive calls, arbitrary clock value before each (forward, equal, backward), all values < u64::MAX - 3", stubs=[_SVC]),
+        H("c29_timestamp_saturation_boundary", "node", _M29, "service_c29", tiers=Q, covers=1,
+          functions=["service::Service::timestamp"], bounds="last = u64::MAX - 1, any clock: result is u64::MAX (documents the boundary of the claim)", stubs=[_SVC]),
+    ],
+    "outside": ["last_timestamp == u64::MAX (saturating add; 584 million years of milliseconds)",
+                "that every signing site obtains its timestamp from Service::timestamp (refs_announcement_for, add/remove_inventory, initialize) is read off the source, not checked",
+                "re-sending the cached node/inventory announcement to a new connection re-uses its old timestamp by design"],
+    "assumptions": ["one-step induction: the only state the generator depends on is (clock, last_timestamp)"],
 }
